@@ -74,6 +74,16 @@ func TestVerifC17HRR(t *testing.T) {
 		}
 		mode := []string{"valid-group", "valid-group", "valid-group", "cookie-only", "invalid-group-already-shared", "invalid-no-change", "unsupported-listed-group"}[rapid.IntRange(0, 6).Draw(rt, "mode")]
 		s := &vsrvScript{HRR: true}
+		// any offered TLS 1.3 suite: the transcript hash (SHA-256 or SHA-384) enters the message_hash construct of the retry
+		var offered13 []uint16
+		for _, x := range vfTLS13Suites {
+			if vfContains16(o.Suites, x) {
+				offered13 = append(offered13, x)
+			}
+		}
+		if len(offered13) > 0 {
+			s.Suite = offered13[rapid.IntRange(0, len(offered13)-1).Draw(rt, "suite")]
+		}
 		var cookie []byte
 		withCookie := rapid.Bool().Draw(rt, "withcookie")
 		if withCookie || mode == "cookie-only" {
@@ -126,6 +136,7 @@ func TestVerifC17HRR(t *testing.T) {
 		cerr, serr := pair.Handshake()
 		desc := fmt.Sprintf("%s | HRR mode=%s group=%04x cookie=%d bytes", src, mode, s.HRRGroup, len(s.HRRCookie))
 		st.Class("mode=" + mode)
+		st.Class(fmt.Sprintf("suite=%04x", s.Suite))
 		if cerr == errVfHang || serr == errVfHang {
 			st.Violation(rt, "%s: hang", desc)
 		}
